@@ -22,7 +22,8 @@ PROPERTY = 'C05'
 LEVEL = 'exploration'
 PLAN = {'quick': [('pool', 1500)], 'thorough': [('pool', 100000)]}
 TIMEOUT = {'quick': 900, 'thorough': 6 * 3600}
-RULE = ('each run: generated model, one seed, one batch_size, one pool object (OutputPool or '
+RULE = ('each run: generated model (vector outputs C-, Fortran-ordered or axis-permuted in memory), '
+        'one seed, one batch_size, one pool object (OutputPool or '
         'on-disk ArrayPool) whose store set is drawn from the stated form (non-empty subset of '
         '{simulator} + its descendants, optionally + ALL parameters; sets outside the form are '
         'negative controls and never judged) and a history of 2-5 steps: fill (Rejection or '
